@@ -31,7 +31,11 @@ KINDS = {"CREATE": "CCreate", "DELETE": "CDelete", "RENAME": "CRename", "SUBSCRI
 CLEAN = ["Work", "Work/sub", "Work/sub/deep/er", "archive", "archive/2024", "b", "b/c", "b/c/d/e",
          "p.q", "p-q", "z", "lists/dev", "lists/dev/null", "k/", "x]y", "Spam/old", "INBOX/in", "Trash/t",
          # bytes next to '/' (0x2f): '.' and '0' are the edges of db.childNameRange
-         "Work0", "Work.", "Work0/x", "b0", "b.c", "b/"]
+         "Work0", "Work.", "Work0/x", "b0", "b.c", "b/",
+         # an ancestor's name recurring inside a descendant's path: whole later segment, tail of a
+         # segment, prefix of a sibling segment (a child's new name must be computed from the PREFIX only)
+         "Work/Work/reports", "Work/MyWork/notes", "Work/Workshop", "Work/Workshop/deep", "Workshop/x",
+         "b/b/c", "b/xb/c", "b/bc", "archive/archive/archive"]
 # names built to collide
 DIRTY = ["a_b", "axb", "axb/child", "a_b/k", "foo", "FOO", "FOO/kid", "foo/kid", "a%", "ab", "abc/d",
          "My Folder", "My", "q\"uote", "back\\slash", "Inbox/sub", "inbox", "INBOX", "Inbox", "sent", "Sent",
@@ -127,6 +131,50 @@ def gen_history(rng, mode, length):
     return h
 
 
+def gen_recur(rng):
+    """>= 3-level hierarchies in which the ancestor's name recurs in its descendants; messages in
+    every mailbox; RENAME / DELETE of the ancestor (or of a middle node); STATUS of every name after it"""
+    anc = rng.choice(["Work", "b", "lists", "Ab"])
+    fam = [anc + "/" + anc + "/reports", anc + "/My" + anc + "/notes", anc + "/" + anc + "shop",
+           anc + "/" + anc + "shop/deep/" + anc, anc + "/x/" + anc, anc + "shop/" + anc, anc + "/" + anc + "/" + anc]
+    rng.shuffle(fam)
+    fam = fam[:rng.randint(3, len(fam))]
+    h = [("CREATE", encode(rng, n)) for n in fam]
+    known = set([anc])
+    for n in fam:
+        parts = n.split("/")
+        for i in range(1, len(parts) + 1):
+            known.add("/".join(parts[:i]))
+    for n in sorted(known):
+        for _ in range(rng.randint(0, 2)):
+            h.append(("APPEND", encode(rng, n)))
+    tail = h[len(fam):]
+    rng.shuffle(tail)
+    h[len(fam):] = tail
+    for rnd in range(rng.randint(1, 2)):
+        r = rng.random()
+        src = anc if r < 0.7 else rng.choice(sorted(k for k in known if "/" in k) or [anc])
+        if rng.random() < 0.2:
+            h.append(("DELETE", encode(rng, src)))
+        dst = rng.choice(["z", "Arch/2024", src + "s", "x/" + anc, "My" + anc, anc.lower() + "2"])
+        h.append(("RENAME", encode(rng, src), encode(rng, dst)))
+        moved = set()
+        for k in known:
+            moved.add(dst + k[len(src):] if (k == src or k.startswith(src + "/")) else k)
+        for k in sorted(moved | known):
+            h.append(("STATUS", encode(rng, k)))
+        known = moved
+        h.append(("LIST",))
+        if known:
+            k = rng.choice(sorted(known))
+            h.append(("APPEND", encode(rng, k)))
+            h.append(("STATUS", encode(rng, k)))
+    leaf = max(known, key=len) if known else anc
+    h.append(("DELETE", encode(rng, leaf)))
+    h.append(("LIST",))
+    return h
+
+
 def scenario(h):
     ops = [{"op": "open", "conn": "c"},
            {"op": "send", "conn": "c", "data": "a0 LOGIN u@example.com pw\r\n", "until": "tag:a0"},
@@ -157,7 +205,8 @@ def state_of_dump(d):
     return (boxes, subs, len(msgs))
 
 
-LINE_RE = re.compile(rb'^\* (?:LIST|LSUB) \(.*?\) "/" "(.*)"$')
+# the mailbox-name token exactly as written (utils.QuoteString); decoded inside Coq (decode_astring)
+LINE_RE = re.compile(rb'^\* (?:LIST|LSUB) \(.*?\) "/" (.*)$')
 STATUS_RE = re.compile(rb'^\* STATUS ".*" \(MESSAGES (\d+)\)$')
 
 
@@ -388,11 +437,12 @@ def run(chk):
     nlike = 0
     # 3. generated histories
     quick = chk.tier == "quick"
-    n_clean, n_mixed, n_bad, n_na = (70, 60, 12, 6) if quick else (700, 700, 80, 30)
+    n_clean, n_mixed, n_bad, n_na, n_rec = (55, 50, 10, 6, 30) if quick else (600, 600, 80, 30, 300)
     hs = ([gen_history(rng, "clean", rng.randint(10, 16)) for _ in range(n_clean)]
           + [gen_history(rng, "mixed", rng.randint(10, 16)) for _ in range(n_mixed)]
           + [gen_history(rng, "malformed", rng.randint(6, 10)) for _ in range(n_bad)]
-          + [gen_history(rng, "nonascii", rng.randint(6, 10)) for _ in range(n_na)])
+          + [gen_history(rng, "nonascii", rng.randint(6, 10)) for _ in range(n_na)]
+          + [gen_recur(rng) for _ in range(n_rec)])
     items, codes = run_histories(chk, hs, stats)
     if codes is None:
         return
@@ -417,6 +467,7 @@ def run(chk):
     chk.cov["traces_validated_against_impl"] = len(items)
     chk.cov["disagreements_checked"] = stats["disagreements"]
     chk.cov["input_distribution"] = {"clean_histories": n_clean, "mixed_histories": n_mixed, "malformed_histories": n_bad, "nonascii_histories": n_na,
+                                     "recurring_ancestor_histories (>=3 levels, ancestor name inside descendants, RENAME/DELETE + STATUS per name)": n_rec,
                                      "names": len(CLEAN) + len(DIRTY), "encoding": "atom or quoted, 50/50 when both are possible"}
     for (h, init, steps) in items[:1] + items[n_clean:n_clean + 1]:
         k = min(3, len(steps) - 1)
